@@ -444,6 +444,19 @@ example : parseOp (fun _ => true) ⟨.channel, .json, .missing, []⟩ = .error .
 example : parseOp (fun _ => true) ⟨.listener, .flag, .str, "ssh~tcp://127.0.0.1:2222~tcp://10.0.0.1:22~x".toList⟩
     = .ok "SocketListener" "tcp".toList "ssh".toList := by decide
 
+/-- **the DNS server listens on the documented network**: for the documented DNS server schemes the run observation the
+    model predicts — which the harness compares with what a probe from outside finds listening after `Startup`
+    (TCP dial / UDP query against the bound address) — names exactly the documented network: `dns+udp` a UDP
+    server, `dns+tcp` a TCP server; and the undocumented relatives follow the lexical rule (`dns` UDP, `dns+tcp+tls`
+    TCP with TLS). -/
+theorem C18_dns_server_listens_documented :
+    (∀ d ∈ documented, d.1 = .server → d.2.2.1 = "dns" →
+      runStr .server "NewDnsServer" (runOf .server "NewDnsServer" d.2.1.toList)
+        = "dns,dns.ServerDnsListener," ++ d.2.1 ++ ",false," ++ d.2.2.2.1) ∧
+    runStr .server "NewDnsServer" (runOf .server "NewDnsServer" "dns".toList) = "dns,dns.ServerDnsListener,dns,false,udp" ∧
+    runStr .server "NewDnsServer" (runOf .server "NewDnsServer" "dns+tcp+tls".toList)
+      = "dns,dns.ServerDnsListener,dns+tcp,true,tcp-tls" := by decide
+
 end SA.Props.C18
 
 #print axioms SA.Props.C18.C18_gen_regex_sources
@@ -456,3 +469,4 @@ end SA.Props.C18
 #print axioms SA.Props.C18.C18_listener_parts
 #print axioms SA.Props.C18.C18_channel_flag_name
 #print axioms SA.Props.C18.C18_no_panic_config
+#print axioms SA.Props.C18.C18_dns_server_listens_documented
